@@ -211,7 +211,7 @@ impl Item {
                         let next = Item::contains(items.get(i).unwrap(), pattern, depth);
                         match next {
                             Ok(pattern_idx) => return Ok(pattern_idx),
-                            Err(()) => (),
+                            Err(()) => depth += Item::size(items.get(i).unwrap()) - 1,
                         }
                     }
                 }
